@@ -2,7 +2,7 @@
 import ast
 
 from ..pymodel import AnalysisError, FuncInfo, parent
-from ..astutil import (src, is_name, is_const, call_name, walk_no_nested, strip_docstring,
+from ..astutil import (norm_compare, src, is_name, is_const, call_name, walk_no_nested, strip_docstring,
                        compare_atoms, enclosing_stmt, calls_in, names_in, assignments_to)
 from ..cfg import cfg_of, ENTRY, EXIT, RAISE
 from ..effects import Effects, root
@@ -266,12 +266,19 @@ def rules(ctx):
         for n in ast.walk(fn.node):
             lencall = None
             if isinstance(n, ast.Compare) and len(n.ops) == 1:
-                if isinstance(n.ops[0], ast.Gt) and is_const(n.comparators[0], 2):
-                    lencall = n.left
-                elif isinstance(n.ops[0], ast.Lt) and is_const(n.left, 2):
-                    lencall = n.comparators[0]
-                elif isinstance(n.ops[0], ast.GtE) and is_const(n.comparators[0], 3):
-                    lencall = n.left
+                o3 = norm_compare(n)
+                if o3:
+                    for lhs_, op_, rhs_, node_ in ((o3[0], o3[1], o3[2], n.left), (o3[2], _SW.get(o3[1]), o3[0], n.comparators[0])):
+                        if not (lhs_.startswith('len(') and op_):
+                            continue
+                        if (op_, rhs_) in (('>', '2'), ('>=', '3')):
+                            lencall = node_
+                        elif (op_, rhs_) in (('<=', '2'), ('<', '3')):
+                            # the accepting spelling: `if len(..) <= 2: return` with the raise on the other path
+                            owner = enclosing_stmt(n)
+                            if isinstance(owner, ast.If) and any(isinstance(x, ast.Return) for x in owner.body) \
+                                    and not any(isinstance(x, ast.Raise) for b_ in owner.body for x in ast.walk(b_)):
+                                lencall = node_
             if isinstance(lencall, ast.Call) and is_name(lencall.func, 'len'):
                 arg = lencall.args[0]
                 text = src(arg)
@@ -396,6 +403,9 @@ def inplace_validation(ctx, rid):
              "__ipow__ raises for exponents <= 0 itself" if ok else
              "__ipow__ does not reject non-positive exponents itself: `a **= 0` (or a negative / fractional exponent) silently "
              "returns a unchanged instead of raising, while a ** 0 raises")
+
+
+_SW = {'<': '>', '>': '<', '<=': '>=', '>=': '<=', '==': '==', '!=': '!='}
 
 
 def imul_rules(ctx, rid):
